@@ -31,6 +31,21 @@ def gen_vars(rng, keys):
     return kind, ['nope']
 
 
+def glob_like_unknowns(r2, keys, variables):
+    """replaces the unknown name 'nope' by names that are NOT fields but look like shell patterns of fields
+    (a name is a field or it is not: 'Y(OH*)', 'te?p', '*' select nothing)"""
+    out = []
+    for v in variables:
+        if v == 'nope' and r2.random() < 0.6:
+            k = r2.choice(keys)
+            i = r2.randrange(len(k))
+            cand = r2.choice([k[:i] + '*', k[:i] + '?' + k[i + 1:], k[:i] + '[' + k[i] + ']' + k[i + 1:], '*', '?' * len(k),
+                              k[:max(1, len(k) // 2)] + '*'])
+            v = cand if cand not in keys and cand != 'all' else 'nope'
+        out.append(v)
+    return out
+
+
 def expected_contents(pf, keys, variables, limit):
     if variables == ['all']:
         kept = list(range(len(keys)))
@@ -99,6 +114,9 @@ def run_case(seed):
     finest = pf.nlevels - 1
     for k in range(4):
         vkind, variables = gen_vars(rng, keys)
+        variables = glob_like_unknowns(random.Random(seed * 271 + k), keys, variables)
+        if any(v not in keys and v not in ('all', 'nope') for v in variables):
+            count("unknown name looking like a shell pattern of a field")
         limit_arg = rng.choice([None] + list(range(pf.nlevels)))
         limit = finest if limit_arg is None else limit_arg
         count(f"vars={vkind}")
